@@ -360,6 +360,45 @@ PROPS["C12"] = dict(run=tables.combine(ressub_model, tables.tables_run(["pattern
                                        gateway_run(["stream", "win-load", "win-alias", "win-reset1", "win-reset2"], ["mreq", "cev"], also=("C01",))))
 
 
+def subready_model(ctx):
+    """Exhaustive TLC run of spec/SubReady.tla (readiness of a subscription tree: OnReady / onLoaded / collectRefs / Loaded / doneLoading)."""
+    import os, shutil
+    from .common import SPEC, tlc, tlc_stats, MachineryError
+    d = os.path.join(ctx.workdir, "subready-mc")
+    os.makedirs(d, exist_ok=True)
+    for f in ("SubReadyOps.tla", "SubReady.tla"):
+        shutil.copy(os.path.join(SPEC, f), d)
+    with open(os.path.join(d, "MCSubReady.tla"), "w") as f:
+        f.write('---- MODULE MCSubReady ----\nEXTENDS SubReady\nMCNodes3 == {"a", "b", "c"}\nMCAll3 == [MCNodes3 -> SUBSET MCNodes3]\n'
+                'MCNodes4 == {"a", "b", "c", "d"}\n'
+                'MCSome4 == {[a |-> {"b", "c"}, b |-> {"c", "a"}, c |-> {"d"}, d |-> {"b"}], [a |-> {"b", "c"}, b |-> {"d"}, c |-> {"d"}, d |-> {"a", "d"}],\n'
+                '            [a |-> {"b"}, b |-> {"c"}, c |-> {"d"}, d |-> {"a"}], [a |-> {"b", "c", "d"}, b |-> {"d"}, c |-> {"d"}, d |-> {}]}\n====\n')
+    def cfg(nodes, graphs, maxreq, fails, disp, live=True):
+        with open(os.path.join(d, "MCSubReady.cfg"), "w") as f:
+            f.write("SPECIFICATION Spec\nCONSTANTS\n Nodes <- %s\n Graphs <- %s\n MaxReq = %d\n Fails = %s\n WithDispose = %s\n"
+                    "INVARIANTS FireOnce Complete Counted SentClosed\n%sCHECK_DEADLOCK FALSE\n"
+                    % (nodes, graphs, maxreq, fails, disp, "PROPERTIES AllFire\n" if live else ""))
+    runs = [("MCNodes3", "MCAll3", 2 if ctx.tier == "quick" else 3, '{"b", "c"}')]
+    if ctx.tier != "quick":
+        runs.append(("MCNodes4", "MCSome4", 3, '{"c", "d"}'))
+    tg = td = 0
+    for nodes, graphs, mr, fails in runs:
+        cfg(nodes, graphs, mr, fails, "FALSE")
+        p = tlc("MCSubReady.tla", d, [], timeout=1800, workers=8)
+        if "No error has been found" not in p.stdout:
+            raise MachineryError("SubReady.tla does not satisfy its own properties (model bug):\n" + p.stdout[-2000:])
+        g, dist = tlc_stats(p.stdout)
+        tg, td = tg + g, td + dist
+    # negative check: a root disposed while callbacks are parked on it (finding KF-H) breaks the bookkeeping
+    cfg("MCNodes3", "MCAll3", 2, '{"b", "c"}', "TRUE", live=False)
+    pn = tlc("MCSubReady.tla", d, [], timeout=900, workers=8)
+    if "Invariant Counted is violated" not in pn.stdout:
+        raise MachineryError("SubReady.tla with WithDispose = TRUE should violate Counted (finding KF-H):\n" + pn.stdout[-1500:])
+    cov = dict(states=td, transitions=tg, samples=[{"model": "spec/SubReady.tla: every reference graph over 3 resources (512 graphs, incl. self references and cycles)%s, OnReady calls from client requests and from references added by events, loads completing in any order, failing loads; invariants FireOnce Complete Counted SentClosed, liveness AllFire; negative check: disposing a root with parked callbacks violates Counted (KF-H)" % ("" if ctx.tier == "quick" else " and four 4-resource graphs")}],
+               rule="exhaustive TLC on SubReady.tla; the code is bound to SubReadyOps by the rdy* / subRef / subSent notes replayed by SubReadyTrace.tla inside the observer on every gateway trace", exhaustive=False)
+    return dict(coverage=cov, violations=[], level="model_checking", assumptions=[])
+
+
 def directcount_model(ctx):
     """Exhaustive TLC run of spec/DirectCount.tla: the code-shaped variant must violate UnsubRule (finding KF-H), the repaired design must pass."""
     import os, shutil
@@ -384,6 +423,8 @@ def directcount_model(ctx):
                rule="exhaustive TLC on DirectCount.tla (design level); the code is judged by the observer's C08 rules on replayed schedules, with KF-H attributed by its signature", exhaustive=False)
     return dict(coverage=cov, violations=[], level="model_checking", assumptions=[])
 
+
+PROPS["C07"] = dict(run=tables.combine(subready_model, gateway_run(["gc", "access", "win-gc", "win-recheck", "thr-ref1"], ["cres"])))
 
 PROPS["C08"] = dict(run=tables.combine(directcount_model, gateway_run(["gc", "cache", "access", "win-gc", "win-evict"], ["cres"])))
 
